@@ -48,6 +48,12 @@ def setup_monitors(ctx, mon, anchors):
     def on_rich(frame, ret):
         _OBS['rich_abs'] = float(np.sum(np.abs(ret)))
 
+    def on_esterr(frame):
+        try:
+            _OBS['rich_m_old'] = int(np.shape(frame.f_locals['old_sequence'])[0])
+        except Exception:
+            pass
+
     def on_best(frame, ret):
         loc = frame.f_locals
         try:
@@ -81,6 +87,7 @@ def setup_monitors(ctx, mon, anchors):
         'numdifftools.finite_difference:LogRule.rule': dict(on_return=on_rule),
         'numdifftools.limits:_Limit._get_best_estimate': dict(on_return=on_best),
         'numdifftools.extrapolation:Richardson.rule': dict(on_return=on_rich),
+        'numdifftools.extrapolation:Richardson._estimate_error': dict(on_start=on_esterr),
         'numdifftools.limits:_Limit._add_error_to_outliers': dict(on_return=on_outliers),
         'numdifftools.extrapolation:dea3': dict(on_return=on_dea3),
     }
@@ -159,16 +166,33 @@ def draw_program(rng):
     return X.rand_tree(rng, int(rng.integers(1, 5)))
 
 
+def subst(tree, repl):
+    """tree with every occurrence of the variable replaced by the tree `repl`"""
+    if tree == ('x',):
+        return repl
+    return tuple(subst(e, repl) if isinstance(e, tuple) else e for e in tree)
+
+
+def stationary_inner(x0):
+    """t -> x0 + (t - x0)^2 + (t - x0)^3: composing a program g with it gives f with f(x0) = g(x0), f'(x0) = 0 exactly,
+    f''(x0) = 2 g'(x0), f'''(x0) = 6 g'(x0): a point where the exact first derivative vanishes while every
+    difference quotient has a truncation error (the cubic term keeps the function from being even about x0)"""
+    d = ('sub', ('x',), ('c', float(x0)))
+    return ('add', ('c', float(x0)), ('add', ('powi', d, 2), ('powi', d, 3)))
+
+
 def make_case(rng, method, n, order, complex_valued=False):
     for _ in range(60):
         tree = draw_program(rng)
+        stationary = rng.random() < 0.08 and n in (1, 2) and not complex_valued
         if complex_valued:
             tree = ('mul', ('fn', 'exp', ('mul', ('ci', float(rng.choice([0.5, 1.0, 2.0, -1.5]))), ('x',))), tree)
-        arr = rng.random() < 0.25 and n > 0
+        arr = rng.random() < 0.25 and n > 0 and not stationary
         size = int(rng.integers(2, 5)) if arr else 1
         xs = []
+        int_x = rng.random() < 0.06 and not complex_valued
         for _ in range(40):
-            x = draw_point(rng)
+            x = float(rng.choice([1, 2, 3, -1, -2, 4, 5, 8, -3, 0])) if int_x else draw_point(rng)
             sc = X.scan(tree, [x])
             if sc.ok and sc.maxabs < 1e50:
                 xs.append(x)
@@ -178,8 +202,18 @@ def make_case(rng, method, n, order, complex_valued=False):
             shape = [size] if arr else []
             if arr and size == 4 and rng.random() < 0.3:
                 shape = [2, 2]
+            if stationary:
+                # evaluated at the stationary point itself: the exact first derivative is 0 (and a relative error
+                # estimate is worthless there)
+                tree2 = subst(tree, stationary_inner(xs[0]))
+                sc = X.scan(tree2, [xs[0]])
+                if sc.ok and sc.maxabs < 1e50:
+                    tree = tree2
+                else:
+                    stationary = False
             return dict(tree=tree, x=xs, shape=shape, method=method, n=n, order=order,
-                        step=draw_step_spec(rng, method, n), cplx=bool(complex_valued))
+                        step=draw_step_spec(rng, method, n), cplx=bool(complex_valued), stationary=bool(stationary),
+                        int_x=bool(int_x))
     return None
 
 
@@ -271,6 +305,17 @@ def run_case(case, ctx, full_output=True):
     shape = tuple(case['shape'])
     xs = list(case['x'])
     x = np.array(xs, dtype=float).reshape(shape) if shape else float(xs[0])
+    if case.get('int_x') and all(float(v).is_integer() for v in xs):
+        # the same point handed over as Python / numpy integers (only if the program itself accepts integers there)
+        xi = np.array(xs, dtype=int).reshape(shape) if shape else int(xs[0])
+        try:
+            with np.errstate(all='ignore'):
+                same = np.allclose(np.asarray(f(np.asarray(xi)), dtype=complex), np.asarray(f(x), dtype=complex), rtol=1e-13, atol=0, equal_nan=True)
+        except Exception:
+            same = False
+        if same:
+            x = xi
+            ctx.count('integer_typed_x_cases')
     _OBS.clear()
     res = dict(outcome='ok', elems=[], obs=_OBS, rec=rec, tree=tree, x=x)
     try:
